@@ -1,0 +1,21 @@
+//go:build verif
+// +build verif
+
+package p2p
+
+// Hook for the peer-input check in /verif (compiled only with -tags verif, add-only).
+
+import (
+	"net"
+
+	"github.com/spf13/viper"
+)
+
+// VerifNewPeer is newPeer: a real Peer with a real MConnection on conn (no handshake; the caller supplies
+// the NodeInfo the handshake would have produced).  onReceive dispatches to reactorsByCh exactly as for a
+// peer created by the Switch; onPeerError is what MConnection._recover / stopForError end up calling.
+func VerifNewPeer(config *viper.Viper, conn net.Conn, info *NodeInfo, outbound bool, reactorsByCh map[byte]Reactor,
+	chDescs []*ChannelDescriptor, onPeerError func(*Peer, interface{})) *Peer {
+	setConfigDefaults(config)
+	return newPeer(config, conn, info, outbound, reactorsByCh, chDescs, onPeerError)
+}
